@@ -35,6 +35,8 @@ struct World {
     long rc = 0;          // integer return value of the last API call (if any)
     bool rc_bad = false;  // return value outside the documented set
     bool rc_value = false;// the call returned a value (handle, index, count): part of the observable result
+    bool probing = false; // observations are being made after a FAILED call (usability probe, not compared)
+    std::string probe_bad;// set by an observation that got an insane answer while probing
     vnadata_t *vd[4] = {nullptr, nullptr, nullptr, nullptr};
     vnaproperty_t *prop[3] = {nullptr, nullptr, nullptr};
     vnacal_t *vc[2] = {nullptr, nullptr};
@@ -522,10 +524,10 @@ static void script_vnaproperty_basic(Script &S) {
     PDEL(0, "refl[1].");
     PDEL(0, "grow.k3");
     PDEL(0, "names");
-    S.add("vnaproperty_quote_key", false, [](World &w) { RET_PTR(w, vnaproperty_quote_key("my.key with[odd] {chars}\\"), w.str[0]); }, [](World &w) { w.obs("quoted=%s", w.str[0]); });
+    S.add("vnaproperty_quote_key", false, [](World &w) { RET_PTR(w, vnaproperty_quote_key("my.key with[odd] {chars}\\"), w.str[0]); }, [](World &w) { w.obs("quoted=%s", w.str[0] ? w.str[0] : "(null)"); });
     S.add("vnaproperty_get", false, [](World &w) { errno = 0; const char *v = vnaproperty_get(w.prop[1], "%s", "my\\.key with\\[odd\\] chars"); w.err = errno; w.rc_bad = false; if (!v) return true; w.text[0] = v; return false; }, [](World &w) { w.obs("get=%s", w.text[0].c_str()); });
-    S.add("vnaproperty_quote_key", false, [](World &w) { RET_PTR(w, vnaproperty_quote_key(""), w.str[1]); }, [](World &w) { w.obs("quoted-empty=[%s]", w.str[1]); });
-    S.add("vnaproperty_quote_key", false, [](World &w) { RET_PTR(w, vnaproperty_quote_key("plain_key"), w.str[2]); }, [](World &w) { w.obs("quoted-plain=[%s]", w.str[2]); });
+    S.add("vnaproperty_quote_key", false, [](World &w) { RET_PTR(w, vnaproperty_quote_key(""), w.str[1]); }, [](World &w) { w.obs("quoted-empty=[%s]", w.str[1] ? w.str[1] : "(null)"); });
+    S.add("vnaproperty_quote_key", false, [](World &w) { RET_PTR(w, vnaproperty_quote_key("plain_key"), w.str[2]); }, [](World &w) { w.obs("quoted-plain=[%s]", w.str[2] ? w.str[2] : "(null)"); });
     PSET(0, ".=root becomes a scalar");
     PDEL(0, ".");
     PDEL(1, ".");
@@ -599,8 +601,17 @@ static cvec gamma_vec(int F, double mag, double phase0, double dphase) {
     return v;
 }
 static void obs_par(World &w, int slot, double f) {
+    errno = 0;
     dcx z = vnacal_get_parameter_value(w.vc[0], w.par[slot], f);
+    int e = errno;
     w.obs("par[%d](%g)=%a%+ai", slot, f, re_(z), im_(z));
+    // vnacal_parameter(3): a complex number on success or HUGE_VAL on error -- also right after a failed call
+    bool clean_failure = re_(z) == HUGE_VAL && e != 0;
+    bool sane_value = std::isfinite(re_(z)) && std::isfinite(im_(z));
+    if (!clean_failure && !sane_value && w.probe_bad.empty()) {
+        char b[200]; snprintf(b, sizeof b, "vnacal_get_parameter_value(par[%d], %g) = %g%+gi, errno %d", slot, f, re_(z), im_(z), e);
+        w.probe_bad = b;
+    }
 }
 
 // --- S8: parameter table: every kind of parameter, >= 5 of each so that the table crosses its
@@ -1243,6 +1254,52 @@ static void script_vnacal_property_retype(Script &S) {
     VC_FREE(1);
 }
 
+// --- S20: unknown and correlated parameters shared by several vnacal_new_t structures with different
+//     numbers of frequency points (3, then 2 = fewer, then 4 = more): each solve replaces the values
+//     and the frequency grid stored in the shared parameters.  After every solve -- and, through the
+//     usability probe, after every FAILED solve -- the parameters are evaluated at frequencies of all grids.
+static void script_vnacal_shared_unknown(Script &S) {
+    S.name = "vnacal_shared_unknown_regrid";
+    static Vna2 vna; vna.with_leak = true;
+    static const cd R1(-0.91, 0.02), R2(-0.89, -0.01);
+    static const int NF[3] = {3, 2, 4};
+    static const dvec grid[3] = {{1e9, 2e9, 3e9}, {1e9, 3e9}, {1e9, 1.5e9, 2.5e9, 3e9}};
+    struct Set { MeasP thru, so, os, mm, rr; };
+    static Set sets[3];
+    if (!sets[0].thru) for (int j = 0; j < 3; j++) {
+        sets[j].thru = measure_m(vna, NF[j], S_const(0, 1, 1, 0), 2, 2);
+        sets[j].so = measure_m(vna, NF[j], S_const(-1, 0, 0, 1), 2, 2);
+        sets[j].os = measure_m(vna, NF[j], S_const(1, 0, 0, -1), 2, 2);
+        sets[j].mm = measure_m(vna, NF[j], S_const(0, 0, 0, 0), 2, 2);
+        sets[j].rr = measure_m(vna, NF[j], S_const(R1, 0, 0, R2), 2, 2);
+    }
+    static const dvec sig1 = {0.05};
+    static const dvec snf = {1e-3};
+    auto obs_all = [](World &w) { for (double f : {1e9, 1.5e9, 2e9, 2.5e9, 3e9}) { obs_par(w, 1, f); obs_par(w, 2, f); } };
+    VC_CREATE(0);
+    PAR_SCALAR(0, -0.9, 0.0);
+    S.add("vnacal_make_unknown_parameter", true, [](World &w) { RET_INTN(w, vnacal_make_unknown_parameter(w.vc[0], w.par[0]), w.par[1]); });
+    S.add("vnacal_make_correlated_parameter", true, [](World &w) { RET_INTN(w, vnacal_make_correlated_parameter(w.vc[0], w.par[1], nullptr, 1, sig1.data()), w.par[2]); });
+    for (int j = 0; j < 3; j++) {
+        S.add("vnacal_new_alloc", true, [j](World &w) { RET_PTR(w, vnacal_new_alloc(w.vc[0], VNACAL_TE10, 2, 2, NF[j]), w.vn[j]); });
+        S.add("vnacal_new_set_frequency_vector", true, [j](World &w) { RET_INT0(w, vnacal_new_set_frequency_vector(w.vn[j], grid[j].data())); });
+        S.add("vnacal_new_set_m_error", true, [j](World &w) { RET_INT0(w, vnacal_new_set_m_error(w.vn[j], nullptr, 1, snf.data(), nullptr)); });
+        S.add("vnacal_new_add_through_m", true, [j](World &w) { RET_INT0(w, vnacal_new_add_through_m(w.vn[j], sets[j].thru->ptr(), 2, 2, 1, 2)); });
+        S.add("vnacal_new_add_double_reflect_m", true, [j](World &w) { RET_INT0(w, vnacal_new_add_double_reflect_m(w.vn[j], sets[j].so->ptr(), 2, 2, VNACAL_SHORT, VNACAL_OPEN, 1, 2)); });
+        S.add("vnacal_new_add_double_reflect_m", true, [j](World &w) { RET_INT0(w, vnacal_new_add_double_reflect_m(w.vn[j], sets[j].os->ptr(), 2, 2, VNACAL_OPEN, VNACAL_SHORT, 1, 2)); });
+        S.add("vnacal_new_add_double_reflect_m", true, [j](World &w) { RET_INT0(w, vnacal_new_add_double_reflect_m(w.vn[j], sets[j].mm->ptr(), 2, 2, VNACAL_MATCH, VNACAL_MATCH, 1, 2)); });
+        S.add("vnacal_new_add_double_reflect_m", true, [j](World &w) { RET_INT0(w, vnacal_new_add_double_reflect_m(w.vn[j], sets[j].rr->ptr(), 2, 2, w.par[1], w.par[2], 1, 2)); });
+        S.add("vnacal_new_set_pvalue_limit", true, [j](World &w) { RET_INT0(w, vnacal_new_set_pvalue_limit(w.vn[j], 1e-9)); });
+        S.add("vnacal_new_solve", true, [j](World &w) { RET_INT0(w, vnacal_new_solve(w.vn[j])); }, obs_all);
+        S.add("vnacal_add_calibration", true, [j](World &w) { static const char *names[3] = {"f3", "f2", "f4"}; RET_INTN(w, vnacal_add_calibration(w.vc[0], names[j], w.vn[j]), w.ci[j]); });
+    }
+    // back to the first structure: its grid (3 points) replaces the 4-point one
+    S.add("vnacal_new_solve", true, [](World &w) { RET_INT0(w, vnacal_new_solve(w.vn[0])); }, obs_all);
+    VC_SAVE(0);
+    VN_FREE(1);
+    VC_FREE(0);
+}
+
 //@@MORE_SCRIPTS@@
 
 static void build_scripts() {
@@ -1256,6 +1313,7 @@ static void build_scripts() {
         script_vnacal_auto_ue14, script_vnacal_weighted, script_vnacal_correlated, script_vnacal_multi, script_vnacal_t16,
         script_gen_cal_family,
         script_vnaproperty_retype, script_vnaproperty_replace_root, script_vnacal_property_retype,
+        script_vnacal_shared_unknown,
         //@@MORE_BUILDERS@@
     };
     for (builder b : all) { g_scripts.emplace_back(); b(g_scripts.back()); }
@@ -1319,6 +1377,20 @@ static void run_script(Ctx &c, Script &S, int fault_step, long k, std::vector<lo
                         PBT_CHECK(c, sys, "C12.no_system_callback", "script %s step %zu: %s failed with ENOMEM when allocation %ld (%s) failed but made no VNAERR_SYSTEM callback; callbacks: %s", S.name.c_str(), s, st.fn.c_str(), k, fi->site.c_str(), w.log.text().c_str());
                     }
                 }
+                // "all objects remain usable": before the call is repeated, make the step's observations on
+                // the objects as the failed call left them (getters, parameter values, property walks).
+                // What they return is not compared (the state after a failure is not specified beyond
+                // "usable"), but they must not crash and must give documented answers.
+                if (st.obs) {
+                    verif_fi_pause();
+                    std::string keep; keep.swap(w.digest);
+                    w.probing = true; w.probe_bad.clear();
+                    st.obs(w);
+                    w.probing = false;
+                    w.digest.swap(keep);
+                    verif_fi_resume();
+                    PBT_CHECK(c, w.probe_bad.empty(), "C12.unusable_after_failure", "script %s step %zu: %s failed cleanly when allocation %ld (%s) failed, but the object it left behind answers nonsense: %s", S.name.c_str(), s, st.fn.c_str(), k, fi->site.c_str(), w.probe_bad.c_str());
+                }
                 // the SAME call again, without fault
                 w.log.clear();
                 verif_fi_reset();
@@ -1332,8 +1404,10 @@ static void run_script(Ctx &c, Script &S, int fault_step, long k, std::vector<lo
         if (st.obs) {
             verif_fi_pause();
             w.obs("-- after step %zu %s", s, st.fn.c_str());
+            w.probe_bad.clear();
             st.obs(w);
             verif_fi_resume();
+            PBT_CHECK(c, w.probe_bad.empty(), "C12.insane_observation", "script %s step %zu (%s): %s", S.name.c_str(), s, st.fn.c_str(), w.probe_bad.c_str());
         }
     }
     digest.swap(w.digest);
